@@ -129,7 +129,7 @@ class Hoister:
         if k == "en":
             if t in self.names:
                 return ("ref", self.names[t])
-            name = "%sE%d" % (self.prefix, len(self.names))
+            name = t[2] if len(t) > 2 else "%sE%d" % (self.prefix, len(self.names))
             self.names[t] = name
             self.decls.append(("enum", name, t[1]))
             return ("ref", name)
